@@ -9,7 +9,9 @@ Scenario:
    "path": "wire" (default: two real Wires, FIFO) | "direct" (no delay at all: the sink's put() runs inside the sender's
            out.put(), the sender's put() inside the sink's out.put() -- the topology `gen.out = sink; sink.out = gen`)
            | "jitter" (each packet is delayed by its own amount fj[i] / rj[i], so packets overtake each other),
-   "finish": "none" -> the Flow keeps its default finish_time (None)}
+   "finish": "none" -> the Flow keeps its default finish_time (None),
+   "finish_at": [num, den] -> an unbounded source (no Flow.size) that stops producing new data at that instant: the flow
+           is then whatever was sent before it (cfg.n is filled in from next_seq at the end of the run)}
 Only the public surface is used: the constructors, the `out` attributes (taps), put(), the public attributes
 mss / rto / last_ack / next_seq of the sender and recv_buffer of the sink.  The taps apply the drops: the i-th packet
 the sender puts on its output is discarded iff i is in dd, the i-th ACK the sink emits iff i is in ad.
@@ -59,6 +61,8 @@ def run_one(sc):
     # a run that completes needs far fewer events (at most about a third of this on every scenario tried, at most half
     # for long flows whose RTO has collapsed onto the RTT so that every window is retransmitted once -- the n*n term);
     # a sender and sink that keep answering each other for ever are cut off here and the trace ends in an X event
+    if sc.get("finish_at"):
+        n = 48           # only for the size of the event budget; the real n is read off at the end
     limit = sc.get("cap") or 60 + 24 * n + 24 * (len(dd) + len(ad)) + n * n // 4
     premise = [True]
     st = {"frames": [], "sender": None}
@@ -188,14 +192,17 @@ def run_one(sc):
         fwd = rev = 0.0
     info = {}
     try:
-        if sc.get("finish") == "none":
+        if sc.get("finish_at"):
+            flow = Flow(flow_id=fid, src="a", dst="b", start_time=start, finish_time=start + float(fr(sc["finish_at"], 1)))
+        elif sc.get("finish") == "none":
             flow = Flow(flow_id=fid, src="a", dst="b", start_time=start)      # finish_time keeps its default
         else:
             flow = Flow(flow_id=fid, src="a", dst="b", start_time=start, finish_time=float(until) * 4 + 10)
         cc = TCPCubic() if sc.get("cc") == "cubic" else TCPReno()
         sender = TCPPacketGenerator(env, flow=flow, cc=cc, rtt_estimate=rtt0)
         cfg["mss"] = enc(sender.mss)
-        flow.size = n * sender.mss
+        if not sc.get("finish_at"):
+            flow.size = n * sender.mss
         st["sender"] = sender
         sink = TCPSink(env)
         if path == "direct":
@@ -239,6 +246,11 @@ def run_one(sc):
         except BaseException as e:  # noqa
             ev.append(dict(BASE, e="X", type=type(e).__name__))
             tm.append(env.now)
+    if sc.get("finish_at"):
+        try:
+            cfg["n"] = int(sender.next_seq) // int(sender.mss)       # the flow = what was sent before the source stopped
+        except Exception:
+            cfg["n"] = -1
     if not dd and not ad and premise[0] and path != "jitter":
         cfg["timely"] = 1          # (a path that reorders may cause duplicate ACKs, hence fast retransmits: no premise there)
     info["rto_end"] = repr(getattr(sender, "rto", None))
